@@ -14,6 +14,8 @@ claimed.  Decided necessary conditions:
   R-C10-unresolved-point   every UnResolved built during query retrieval (to_unresolved_result / to_unresolved_value / the aggregate in
                            retrieve_index) names as "traversed to" a clone of the value that very function is traversing — its own
                            Rc<PathAwareValue> parameter — and nothing obtained from another query result (sibling agreement, 13 sites)
+  R-C10-reported-value     the conversion of a value for machine-readable reports hands Int / Float to serde_json's i64 / f64 constructors
+                           without a numeric cast (no saturation or rounding of the reported number)
   R-C10-path-primitives    extend_str appends '/' + part to the parent's pointer and keeps the location; extend_usize /
                            extend_string delegate to it
 """
@@ -410,8 +412,45 @@ def text_as_read(ctx, crates, sinks=None, floor=True):
         ctx.lost(rule, rule + ":floor", "only %d parser call sites found (floor %d: 14 per crate copy)" % (n_sites, 14 * len(crates)))
 
 
+def reported_value(ctx, cr):
+    """the `value` shown for a path in JSON / YAML / SARIF reports is the document's value: the one conversion every machine-readable report
+    goes through (TryInto<(String, serde_json::Value)> for &PathAwareValue) hands each scalar to serde_json's constructor of its own kind
+    — Number::from(i64) for an Int, Number::from_f64 for a Float — without a numeric cast on the way (`as i64` saturates: every float of
+    magnitude 2^63 and above would be reported as 9223372036854775807)."""
+    rule = "R-C10-reported-value"
+    key = next((k for k in sorted(cr.fns) if "TryInto<(std::string::String," in k and "serde_json::Value)>>::try_into" in k and "PathAwareValue" in k and "{closure" not in k), None)
+    if not key:
+        ctx.lost(rule, rule + ":conversion", "impl TryInto<(String, serde_json::Value)> for &PathAwareValue")
+        return
+    unit = [k for k in cr.fns if k == key or k.startswith(key + "::{closure")]
+    casts, numbers = [], []
+    for k in unit:
+        f = cr.fns[k]
+        for bi, si, st in M.iter_stmts(f):
+            rv = st.get("rv")
+            if rv and rv["r"] == "cast" and rv.get("ck") in ("FloatToInt", "IntToFloat", "IntToInt", "FloatToFloat"):
+                casts.append("%s to %s (l.%s)" % (rv["ck"], cr.ty_str(rv["ty"]), st.get("ln")))
+        for bi, t in M.iter_calls(f):
+            p = M.norm_path(t["fn"].get("path", ""))
+            if "serde_json::Number" in p or "serde_json::number::Number" in p:
+                ga = [cr.ty_str(g) for g in t["fn"].get("ga", []) if isinstance(g, int)]
+                numbers.append((p.split("::")[-1] if "from_f64" in p else "from", tuple(ga)))
+    f = cr.fns[key]
+    kinds = set()
+    for nm, ga in numbers:
+        if nm == "from_f64":
+            kinds.add("f64")
+        else:
+            kinds.add("i64" if any(g == "i64" for g in ga) or not ga else "/".join(ga))
+    ok = not casts and kinds == {"i64", "f64"}
+    ctx.ob(rule, rule + ":conversion", ok, ("the reported value passes through %s: the number in the report is no longer the number in the document" % casts[:3]) if casts
+           else ("numbers are handed to serde_json as %s" % sorted(kinds)) + ("" if ok else ", expected exactly one i64 and one f64 constructor"), fn=f,
+           sample={"fn": key, "number_constructors": sorted(kinds)})
+
+
 def run(ctx):
     cr = ctx.lib
+    reported_value(ctx, cr)
     loaders(ctx, cr)
     primitives(ctx, cr)
     unresolved_point(ctx, cr)
